@@ -9,6 +9,7 @@ CONSTANTS
   ClassLevelOption = TRUE
   StoreBeforeValidate = FALSE
   ReorderStoresPlainKeys = FALSE
+  RefusedUnlinksFirst = FALSE
   Emit = FALSE
   EmitOff = 0
 SPECIFICATION Spec
